@@ -102,6 +102,14 @@ theorem C07_failed_payloads {φ} (keys : List TP) (results : List (List Nat × B
       (results.filter (fun r => match r.2 with | .fail _ => true | .ok _ => false)).flatMap (·.1) :=
   failedOf_idxs results
 
+/-- The hypotheses `hnd`/`hcover` of `C07_accounting` hold for the requests `_send_broker_aware_request` builds:
+    whatever broker each payload index `0..n-1` was routed to (the resolution loop appends `(leader, i)` for
+    `i = 0, 1, …`), the per-broker requests (`payloads_by_broker`, kernel `groupByNode`) carry every payload
+    index exactly once. -/
+theorem C07_requests_partition_payloads (routed : List (Int × Nat)) (n : Nat) (h : routed.map (·.2) = List.range n) :
+    ((groupByNode routed).flatMap (·.2)).Nodup ∧ ∀ i, i < n → i ∈ (groupByNode routed).flatMap (·.2) :=
+  groupByNode_partition routed n h
+
 /-- Accounting: if the payload keys are distinct, the requests partition the payload list and every
     broker that answers, answers for exactly the partitions it was asked (`AnswersAsked`), then
     responses ∪ failed payloads account for every payload exactly once: payload `i` is among the failed
@@ -196,6 +204,7 @@ C07_coordinator
 C07_order
 C07_failed_payloads
 C07_accounting
+C07_requests_partition_payloads
 C07_connected_first
 C07_normalize_hosts
 -/
